@@ -32,9 +32,9 @@ def rat(v, den, tol=1e-5):
     return {"nan": False, "num": num, "den": int(den), "close": bool(abs(v * den - num) <= tol * max(1.0, abs(v * den)))}
 
 
-def run_constant(hist, ptype, rnd):
+def run_constant(hist, ptype, rnd, reuse="fresh"):
     """hist: list of (age rank, val).  Two features: the case's history and a companion (so that 'all NaN' is per feature)."""
-    rec = {"part": "constant", "hist": [list(h) for h in hist], "ptype": ptype, "lme": NOLME, "status": "ok",
+    rec = {"part": "constant", "hist": [list(h) for h in hist], "ptype": ptype, "lme": NOLME, "status": "ok", "reuse": reuse, "repeat_same": True,
            "value": rat(float("nan"), 1), "repeated_at_every_age": False, "re0": rat(0, 1), "re1": rat(0, 1),
            "trajectory_is_line": True, "matches_reference_library": True}
     try:
@@ -45,23 +45,31 @@ def run_constant(hist, ptype, rnd):
             warnings.simplefilter("ignore")
             data = Data.from_dataframe(df, drop_full_nan=False)
             model = model_factory("constant")
-            ips = model.personalize(data, "constant_prediction", prediction_type={"last_known": "last-known"}.get(ptype, ptype))  # (the docstring spells it last_known; the accepted value is last-known)
+            pt = {"last_known": "last-known"}.get(ptype, ptype)   # (the docstring spells it last_known; the accepted value is last-known)
+            if reuse != "fresh":
+                # the previous use of the same model object: another data set, columns swapped or named differently
+                prev = pd.DataFrame({"ID": ["z", "z"], "TIME": [61.0, 63.0], "A": [2.0, 3.0], "B": [1.0, np.nan]})
+                prev = prev.rename(columns={"A": "F1", "B": "F0"} if reuse == "swapped_columns" else {"A": "G0", "B": "G1"})
+                ips0 = model.personalize(Data.from_dataframe(prev), "constant_prediction", prediction_type=pt)
+                model.estimate({"z": [62.0]}, ips0)
+            ips = model.personalize(data, "constant_prediction", prediction_type=pt)
             est = model.estimate({"p": [50.0, 61.0, 99.5]}, ips)["p"]
         known = [v for _, v in hist if v != NAN]
         den = len(known) if (ptype == "mean" and known) else 1
         v = ips["p"]["F0"]
         rec["value"] = rat(v, den)
-        col = np.asarray(est)[:, 0]
-        rec["repeated_at_every_age"] = bool(np.array_equal(col, np.full(3, np.float32(v)), equal_nan=True)) and np.asarray(est).shape == (3, 2)
+        col = np.asarray(est)[:, list(model.features).index("F0")]
+        rec["repeated_at_every_age"] = bool(np.array_equal(col, np.full(3, np.float32(v)), equal_nan=True)) and np.asarray(est).shape == (3, 2) \
+            and list(model.features) == ["F0", "F1"] and set(ips["p"]) == {"F0", "F1"}
     except Exception as e:  # noqa: BLE001
         rec["status"] = f"{type(e).__name__}: {str(e)[:120]}"
     return rec
 
 
-def run_lme(c, rnd):
+def run_lme(c, rnd, reuse="fresh"):
     lme = {"ages": list(c["ages"]), "ys": list(c["ys"]), "b0": int(c["b0"]), "b1": int(c["b1"]), "c11": int(c["c11"]), "c12": int(c["c12"]),
            "c22": int(c["c22"]), "slope": bool(c["slope"])}
-    rec = {"part": "lme", "hist": [[1, 1]], "ptype": "last", "lme": lme, "status": "ok", "value": rat(0, 1), "repeated_at_every_age": True,
+    rec = {"part": "lme", "hist": [[1, 1]], "ptype": "last", "lme": lme, "status": "ok", "reuse": reuse, "repeat_same": False, "value": rat(0, 1), "repeated_at_every_age": True,
            "re0": rat(float("nan"), 1), "re1": rat(float("nan"), 1), "trajectory_is_line": False, "matches_reference_library": True}
     try:
         n = len(lme["ages"])
@@ -79,6 +87,11 @@ def run_lme(c, rnd):
             rows = [{"ID": "q", "TIME": float(a), "Y": float(y)} for a, y in zip(lme["ages"], lme["ys"])]
             rnd.shuffle(rows)
             data = Data.from_dataframe(pd.DataFrame(rows))
+            if reuse == "after_estimates":
+                other = pd.DataFrame({"ID": ["u", "u", "w", "w", "w"], "TIME": [-1.0, 2.0, 0.0, 1.0, 3.0], "Y": [1.0, -2.0, 0.5, 2.0, 2.5]})
+                ips0 = model.personalize(Data.from_dataframe(other), "lme_personalize")
+                model.estimate({"u": [0.0, 1.0], "w": [2.0]}, ips0)
+                model.estimate({"w": [-1.0, 5.0]}, ips0)
             ips = model.personalize(data, "lme_personalize")
             ip = ips["q"]
             a = np.array(lme["ages"], dtype=float)
@@ -95,6 +108,10 @@ def run_lme(c, rnd):
             b = np.array([float(ip["random_intercept"]), float(ip.get("random_slope_age", 0.0))])
             line = (lme["b0"] + b[0]) + (lme["b1"] + b[1]) * np.array(ts)
             rec["trajectory_is_line"] = bool(np.allclose(est, line, rtol=1e-5, atol=1e-5))
+            # asked again: same trajectories, same conditional means
+            est2 = np.asarray(model.estimate({"q": ts}, ips)["q"], dtype=float)[:, 0]
+            ip2 = model.personalize(data, "lme_personalize")["q"]
+            rec["repeat_same"] = bool(np.array_equal(est, est2)) and all(np.array_equal(np.asarray(ip[k_]), np.asarray(ip2[k_])) for k_ in ip)
     except Exception as e:  # noqa: BLE001
         rec["status"] = f"{type(e).__name__}: {str(e)[:120]}"
     return rec
@@ -104,7 +121,7 @@ def run_reference(seed, slope):
     """Fitted LME on a univariate cohort: personalised effects of the training individuals vs statsmodels' random_effects."""
     import statsmodels.api as sm
     from statsmodels.regression.mixed_linear_model import MixedLM
-    rec = {"part": "lme_ref", "hist": [[1, 1]], "ptype": "last", "lme": NOLME, "status": "ok", "value": rat(0, 1), "repeated_at_every_age": True,
+    rec = {"part": "lme_ref", "hist": [[1, 1]], "ptype": "last", "lme": NOLME, "status": "ok", "reuse": "fresh", "repeat_same": True, "value": rat(0, 1), "repeated_at_every_age": True,
            "re0": rat(0, 1), "re1": rat(0, 1), "trajectory_is_line": True, "matches_reference_library": False}
     try:
         rng = np.random.RandomState(seed)
@@ -119,6 +136,9 @@ def run_reference(seed, slope):
             model = model_factory("lme", with_random_slope_age=slope)
             data = Data.from_dataframe(df)
             model.fit(data, "lme_fit")
+            # trajectories are asked for before the personalization that is compared with the reference library
+            ips0 = model.personalize(data, "lme_personalize")
+            model.estimate({"s00": [60.0, 70.0], "s03": [65.0]}, ips0)
             ips = model.personalize(data, "lme_personalize")
             ages = df["TIME"].values
             an = (ages - ages.mean()) / ages.std()
@@ -143,7 +163,8 @@ def run(ctx):
                 "values in {1,2,3,NaN}) and the conditional means of the LME random effects exactly (closed 1x1 / 2x2 inverse) on "
                 "integer cases (Benchmarks.tla: LastKnownExtendsLast, MeanBetween, Shrinks); every enumerated case is run through "
                 "ConstantModel.personalize / estimate and, with parameters injected through load_parameters, through "
-                "LMEModel.personalize / estimate; TLC compares the results, as numerators over the specification's denominators, "
+                "LMEModel.personalize / estimate, on a fresh model object or on one that was just used on another data set (columns "
+                "swapped / other feature names; trajectories of other individuals), and asked twice; TLC compares the results, as numerators over the specification's denominators, "
                 "with the specification (BenchmarksTrace.tla); fitted univariate cohorts with and without random slope are compared "
                 "with statsmodels' random_effects on the training individuals. Distinct = distinct case.")
     ctx.assumptions = ["agreement with the reference mixed-model library within 1e-4 relative (it is the library named by the property)"]
@@ -158,15 +179,15 @@ def run(ctx):
     const = [c for c in cs if str(c["part"]) == "constant"]
     lmes = [c for c in cs if str(c["part"]) == "lme"]
     if q:
-        const, lmes = const[:500], lmes[:300]
+        const, lmes = const[:600], lmes[:300]
     recs = []
     for c in const:
         hist = [(int(v["age"]), int(v["val"])) for v in c["hist"]]
-        recs.append(run_constant(hist, str(c["ptype"]), rnd))
-        ctx.case(key=("constant", tuple(hist), str(c["ptype"])))
+        recs.append(run_constant(hist, str(c["ptype"]), rnd, str(c["reuse"])))
+        ctx.case(key=("constant", tuple(hist), str(c["ptype"]), str(c["reuse"])))
     for c in lmes:
-        recs.append(run_lme(c["lme"], rnd))
-        ctx.case(key=("lme", repr(c["lme"])))
+        recs.append(run_lme(c["lme"], rnd, str(c["reuse"])))
+        ctx.case(key=("lme", repr(c["lme"]), str(c["reuse"])))
     for seed in ([1, 2] if q else [1, 2, 3, 4, 5]):
         for slope in (False, True):
             recs.append(run_reference(ctx.seed + seed, slope))
